@@ -36,7 +36,7 @@ def universes():
     return res
 
 
-KIND_PROP = {"upd": "C12", "idx": "C15", "lim": "C33", "read": "C11", "truth3": "C23", "cmp": "C23", "arith": "C23", "order": "C20", "agg": "C21", "err": "C22", "part": "C19"}
+KIND_PROP = {"txn": "C24", "upd": "C12", "idx": "C15", "lim": "C33", "read": "C11", "truth3": "C23", "cmp": "C23", "arith": "C23", "order": "C20", "agg": "C21", "err": "C22", "part": "C19"}
 
 
 def cypher_sessions(tier, seed, u):
@@ -47,6 +47,7 @@ def cypher_sessions(tier, seed, u):
     ss += cyast.index_sessions(tier, seed * 23 + 6)
     ss += cyast.limit_sessions(tier, seed * 29 + 7)
     ss += cyast.update_sessions(tier, seed * 31 + 8)
+    ss += cyast.capi_sessions(tier, seed * 37 + 9)
     return ss
 
 
@@ -374,3 +375,33 @@ def c12(tier, seed, replay):
                    "seeded sequences of CREATE / MERGE (+ON CREATE/ON MATCH, each MERGE repeated) / SET (property, = map, += map, labels) "
                    "/ REMOVE / DELETE / DETACH DELETE after MATCH, OPTIONAL MATCH and UNWIND prefixes; after every statement the dumped "
                    "graph must equal CypherUpdate.ApplyStmt of the previous dump")
+
+
+CAPI_NOTE = ("scripts run through the public C ABI (ndb_execute_write, ndb_begin_write / ndb_txn_query / ndb_txn_commit | "
+             "ndb_txn_rollback); the graph after every script is dumped through a second read-only handle and judged against "
+             "CypherUpdate.ApplyStmt applied to the statements that returned OK, each on the state left by the earlier ones")
+
+
+@reg("C13")
+def c13(tier, seed, replay):
+    return cy_prop("C13", tier, seed, replay, ["upd", "txn"],
+                   "failing statements: conversion errors at a later row, index errors, a connected-node DELETE after a CREATE in "
+                   "the same statement, a syntax error; auto-commit and explicit transactions ended by COMMIT and by ROLLBACK",
+                   CAPI_NOTE + "; a failed statement must leave no trace, also when the transaction is committed afterwards")
+
+
+@reg("C24")
+def c24(tier, seed, replay):
+    return cy_prop("C24", tier, seed, replay, ["txn"],
+                   "6 dependency shapes (MATCH+SET, MATCH+CREATE, MERGE, DELETE of a relationship, filter on an updated value, "
+                   "delete then MERGE again) x COMMIT / ROLLBACK",
+                   CAPI_NOTE)
+
+
+@reg("C14")
+def c14(tier, seed, replay):
+    return cy_prop("C14", tier, seed, replay, ["upd", "txn", "write", "admin"],
+                   "every dump carried by an update / transaction event is checked for relationships whose endpoint is not listed and "
+                   "for disagreement between the outgoing and the incoming view; connected-node DELETE must fail, also for "
+                   "relationships created earlier in the same statement",
+                   CAPI_NOTE + "; plus all update statements of the C12 sessions")
